@@ -110,6 +110,19 @@ for i, order in enumerate((("c1", "c2", "c3"), ("c2", "c1", "c3"))):
                 "steps": _starts(order) + [split(1, 10, 19, ["ins", "del"]), run("sa_101v0"), run("sa_102v0"), run("fwd:sa_101v0"), run("fwd:sa_102v0"),
                                            split(2, 20, 29, ["ins"])]})
 
+# ... the same with EQUAL physical channel names on both clusters (dml_0 upstream = dml_0 downstream): a pack position that
+# needs no renaming must still not be shared with the source pack (and through it with the other collection's pack):
+# shifting the second collection's pack would rewrite the position timestamps of the first one's already emitted pack
+CAT_SAME2 = [coll("c1", 101, ["dml_0_101v0"], ["dml_0_901v0"], 901), coll("c2", 102, ["dml_0_102v0"], ["dml_0_902v0"], 902)]
+def split_same(k, b, e, kinds):
+    return {"op": "feedsplit", "packs": [{"s": sv, "pack": {"id": "dml_0#%d" % k, "b": b, "e": e, "msgs": [m(kk, b + 1 + i) for i, kk in enumerate(kinds)]}}
+                                         for sv in ("dml_0_101v0", "dml_0_102v0")]}
+for i, order in enumerate((("c1", "c2"), ("c2", "c1"))):
+    for tgt in (c02, c03):
+        tgt.append({"plan": "d-split-same-name-%d" % i, "params": {"tt": 1, "catalog": CAT_SAME2}, "steps": _starts(order) + [split_same(1, 10, 19, ["ins"])]})
+        tgt.append({"plan": "d-split-same-name-run-%d" % i, "params": {"tt": 1, "catalog": CAT_SAME2},
+                    "steps": _starts(order) + [split_same(1, 10, 19, ["ins", "del"]), run("dml_0_101v0"), run("dml_0_102v0"), split_same(2, 20, 29, ["ins"])]})
+
 # end-to-end resume plans (driver ckpt, acceptor Ckpt_Trace PROP=C03) are kept as they are in C03.jsonl
 _c03file = os.path.join(os.path.dirname(os.path.abspath(__file__)), "C03.jsonl")
 if os.path.exists(_c03file):
